@@ -7,7 +7,22 @@ use serde_json::Value;
 use crate::{interp::Interpreter, types::CelByteCode, CelError, CelResult, CelValue};
 
 use super::default_macros::{load_compile_macros, load_default_macros};
-use super::{default_funcs::load_default_funcs, type_funcs::load_default_types};
+use super::{
+    default_funcs::load_default_funcs,
+    type_funcs::{construct_type, load_default_types},
+};
+
+fn now_while_compiling(_this: CelValue, _args: Vec<CelValue>) -> CelValue {
+    CelValue::from_err(CelError::runtime("now() is evaluated at run time"))
+}
+
+fn timestamp_while_compiling(_this: CelValue, args: Vec<CelValue>) -> CelValue {
+    if args.is_empty() {
+        CelValue::from_err(CelError::runtime("timestamp() is evaluated at run time"))
+    } else {
+        construct_type("timestamp", args)
+    }
+}
 
 /// Prototype for a function binding.
 ///
@@ -89,6 +104,11 @@ impl<'a> BindContext<'a> {
         load_compile_macros(&mut ctx);
         load_default_funcs(&mut ctx);
         load_default_types(&mut ctx);
+        // Calls that read the clock are evaluated at every execution: while compiling they
+        // fail, which keeps their bytecode instead of freezing the time of compilation into
+        // the program. Functions are looked up before types, so this shadows `timestamp`.
+        ctx.bind_func("now", &now_while_compiling);
+        ctx.bind_func("timestamp", &timestamp_while_compiling);
         ctx
     }
 
